@@ -39,9 +39,13 @@ def _coordinator_patches(world):
         orig_status = TC.status
 
         def status(self):
-            if not world.in_hook:
-                s.point('read-status')
-            return orig_status.fget(self)
+            if world.in_hook:
+                return orig_status.fget(self)
+            s.point('read-status')
+            v = orig_status.fget(self)
+            s.emit('StatusRead', x=xid(self),
+                   done=v in ('failed', 'cancelled', 'success'))
+            return v
         patches.append((TC, 'status', property(status)))
 
     if isinstance(getattr(TC, 'exception', None), property):
@@ -185,7 +189,7 @@ def _user(w, sc):
                        errmsg=str(e)[:80])
                 raise
             s.emit('CancelRet', how=how, x=-1)
-            s.emit('ShutdownEnd', by='canceller')
+            (w._snapshot_hook(s), s.emit('ShutdownEnd', by='canceller'))
         elif how in ('kbi-result', 'kbi-shutdown'):
             s.emit('CancelCall', how=how, x=-1)
             s.interrupt('user', KeyboardInterrupt())
@@ -220,7 +224,7 @@ def _user(w, sc):
                 with w.manager:
                     body()
             finally:
-                s.emit('ShutdownEnd', by='user')
+                (w._snapshot_hook(s), s.emit('ShutdownEnd', by='user'))
         else:
             try:
                 body()
@@ -230,19 +234,21 @@ def _user(w, sc):
                 try:
                     w.manager.shutdown()
                 finally:
-                    s.emit('ShutdownEnd', by='user')
+                    (w._snapshot_hook(s), s.emit('ShutdownEnd', by='user'))
             else:
                 s.emit('ShutdownBegin', by='user')
                 try:
                     w.manager.shutdown()
                 finally:
-                    s.emit('ShutdownEnd', by='user')
+                    (w._snapshot_hook(s), s.emit('ShutdownEnd', by='user'))
     except (ValueError, KeyboardInterrupt) as e:
         s.emit('UserExit', exc=type(e).__name__)
     # results after shutdown (never block once shutdown returned, unless buggy)
     for x in list(w.futures):
-        if x not in w.results:
+        if x not in w.results or w.results[x][0] == 'kbi':
             try:
                 w.result(x)
             except KeyboardInterrupt:
                 pass
+    for x in list(w.futures):
+        w.result_again(x)
